@@ -18,6 +18,7 @@ def handle (line : String) : String :=
       | "loc" => Drv.opLoc j
       | "registry" => Drv.opRegistry j
       | "schedule" => Drv.opSchedule j
+      | "abspath" => Drv.opAbsPath j
       | "cacheopt" => Drv.opCacheOpt j
       | "history" => Drv.opHistory j
       | "argctx" => Drv.opArgCtx j
